@@ -380,6 +380,8 @@ H_Get(st, req, p) ==
               ELSE IF "WRAP_KEY" \notin ko.mask THEN Fail(st, "PermissionDenied")
               ELSE IF p.w.anames THEN Fail(st, "IllegalOperation")
               ELSE IF p.w.enc # "NO_ENCODING" THEN Fail(st, "EncodingOptionError")
+              \* the wrapping algorithm comes from the key information's cryptographic parameters
+              ELSE IF p.w.nocp THEN Fail(st, "InvalidField")
               ELSE Backend(st, <<l.u>>)
          ELSE Fail(st, "PermissionDenied")
 
